@@ -9,32 +9,89 @@ BASE_NOTE = ("Trusted base: the front-end stand-in (ANTLR Java runtime 4.11.1 in
              "built offline; conformance shown on the full upstream suite (DESIGN 1.3). ")
 
 # id -> (category, technique, text, note, design_ref, has_thorough)
+REF_NOTE = BASE_NOTE + "Expected values come from an independent reference evaluator (plain Python, no engine code) that must first reproduce the repository's stored expectations (calibration gate, exit 2 otherwise); semantics the manual leaves open are excluded or both readings accepted (listed in the evidence). "
+DIFF_NOTE = BASE_NOTE + "Differential oracle: no hand-written expected values. "
+
+def E(tech, text, note, ref, cat="exploration", thorough=True):
+    return (cat, tech, text, note, ref, thorough)
+
 CHECKS = {
-    "C26": ("exploration", "exhaustive enumeration of all raise sites (ast) + executed instantiation + runtime monitor",
-            "Every construction site of a coded VTL exception in src/vtlengine is enumerated from the working tree and "
-            "executed against the real catalogue; complete finite space, so the right level is exhaustive exploration.",
-            BASE_NOTE + "Codes computed at run time with no string constant reaching them are covered only by the monitor.",
-            "4/C26", False),
-    "C13": ("model_checking", "explicit-state check of an abstract table store driven by the real DAG schedule, every model trace replayed against run() through a connection proxy",
-            "Every dependency graph within the bound (x persistence labelling x return_only_persistent) is explored; the abstract "
-            "store's invariants are checked on every state and the real catalogue trace of run() must equal the model trace.",
-            BASE_NOTE + "Statement reads come from the generator; catalogue events are observed at the DuckDB connection.", "4/C13", True),
-    "C16": ("fault_enumeration", "fault injection at every event of the connection-proxy trace + explicit-state search over histories of failing runs",
-            "Every failure point (each load step, statement, fetch, write, release) of each subject script x fault alphabet x "
-            "{in-memory, file-backed}, configuration failures, and all sequences of <= 3 failing runs followed by probes.",
-            BASE_NOTE + "Faults are injected at DuckDB connection calls; residue = temp dir entries, db file, open connection, fds, probe outcome.", "4/C16", True),
-    "C17": ("model_checking", "stateless schedule enumeration of real threads with iterative preemption bounding (hand-written cooperative scheduler)",
-            "All schedules with <= 1 (quick) / <= 2 (thorough) preemptions of every pair of an 11-call alphabet (triples in thorough) at the "
-            "engine's shared-state switch points; each call's outcome must equal its outcome alone in a fresh process.",
-            BASE_NOTE + "Interleavings only at declared switch points (sys.settrace call events + parser_lock); parse-tree lifetime modelled by generation check.", "4/C17", True),
-    "C23": ("exploration", "exhaustive enumeration of token sequences / character strings / token mutations / nesting ladders / parse histories",
-            "Bounded-exhaustive input spaces through the recogniser on the repository's ATN and through create_ast, plus all parse "
-            "histories of length <= 3 compared with a fresh process.",
-            BASE_NOTE + "Memory safety of the compiled extension is out of reach (DESIGN 7).", "4/C23", True),
-    "C31": ("model_checking", "the repository's parser ATN interpreted in SLL and LL by ANTLR's own prediction code, compared on exhaustively generated inputs",
-            "SLL vs LL verdict, first error and parse tree compared on every corpus script, one shortest sentence through every ATN "
-            "transition, all their single-token mutations and all token sequences up to length k.",
-            BASE_NOTE + "Java runtime 4.11.1 stands for the C++ runtime 4.13.2.", "4/C31", True),
+    "C01": E("exhaustive program x input enumeration (truth-table packing, all depth-2 operator pairs, all 16x16 key/value relations) against a calibrated reference evaluator",
+             "All element-wise operators at component / scalar / dataset level over the full cartesian product of small value domains, complete nesting depth 2; each result compared with a reference evaluator calibrated on 83 Reference-Manual examples.", REF_NOTE, "4/C01"),
+    "C02": E("exhaustive enumeration of well-typed clause chains x all relations over a 2x2 identifier grid against a calibrated reference evaluator",
+             "Every well-typed chain of filter/calc/keep/drop/rename/sub up to length 2 (3 over a sub-alphabet; 4 thorough) on three kinds of subject, over all 625 packed relations.", REF_NOTE, "4/C02"),
+    "C03": E("exhaustive enumeration of aggregate invocations x every multiset of group contents against a calibrated reference evaluator",
+             "10 aggregates x groupings x having x forms over every multiset of size <= 3 (5 thorough) of {null,a,b}, per measure type.", REF_NOTE, "4/C03"),
+    "C04": E("exhaustive enumeration of join heads x bodies x all key-presence patterns (packed) against a calibrated nested-loop reference join",
+             "inner/left/full/cross joins of 2-3 operands in every identifier configuration, alias and clash mode, with bodies, over every key-presence pattern of a 3-key universe.", REF_NOTE, "4/C04"),
+    "C05": E("exhaustive enumeration of set expressions x every subset assignment of a key universe against the property's own set algebra",
+             "union/intersect (2-4 operands), setdiff, symdiff, nested and filtered operands, permuted component orders; every operand is every subset of the keys.", REF_NOTE, "4/C05"),
+    "C06": E("exhaustive enumeration of analytic invocations x 43 frames x 2 window modes x all short partitions against a calibrated reference evaluator",
+             "16 analytic functions x partition x order x every frame with offsets 0-3/unbounded in data-points and range mode, dataset level and inside calc, partitions of 0-3 (4) rows over {null,a,b}, each in two physical row orders.", REF_NOTE, "4/C06"),
+    "C07": E("exhaustive enumeration of check / datapoint-ruleset / hierarchical-ruleset programs x all 3^5 presence patterns against a calibrated reference evaluator",
+             "check, check_datapoint (rule sequences / subsets), check_hierarchy and hierarchy over all validation / input / output modes that calibrate on the repository's 89 stored cases; unmodelled mode combinations are listed, not judged.", REF_NOTE, "4/C07"),
+    "C08": E("exhaustive enumeration of every period of every indicator over a year range x shifts, plus all gap patterns of 6-period windows, against an independent reference calendar",
+             "timeshift / period_indicator / getyear.. / time_agg / datediff / dateadd applied to the complete calendar (1995-2030 quick, 1900-2100 thorough) and fill_time_series / flow_to_stock / stock_to_flow on all 63 presence patterns across year boundaries.",
+             BASE_NOTE + "Oracle = plain datetime/isocalendar reference calendar (vtlmc/refcal.py), calibrated on 171 stored expectations.", "4/C08"),
+    "C09": E("exhaustive enumeration of all 8x8 (source,target) pairs x value pool x 3 levels against the conversion tables of docs/data_types.rst parsed at run time",
+             "Every cast pair over a pool of edge values at scalar, component and dataset level; forbidden pairs must raise SemanticError, values convert as the documented conversion details say, levels must agree.",
+             BASE_NOTE + "Oracle = docs tables + an independent re-implementation of the documented conversion rules that must reproduce the 51 worked examples of the document.", "4/C09"),
+    "C10": E("semantic_analysis() as the model of run(): structure-conformance monitor over the recorded corpus, the program alphabet and 37 structure-changing statements",
+             "Names, components (role, type, nullability), column order, value types, identifier uniqueness / non-nullness of every returned dataset against what semantic_analysis predicts.", DIFF_NOTE, "4/C10"),
+    "C11": E("complete enumeration of the 9x9 (9^3) operand-type space for every operator class found by introspection, against the implicit-cast table parsed from the docs",
+             "Every operator of the registries x every ordered type pair at the promotion-function, scalar, component and dataset level; accept/reject and result type against the documented table plus table-free invariants.",
+             BASE_NOTE + "Oracle = docs/data_types.rst implicit-cast table parsed at run time; parameter signatures of ternary operators are hand-written (listed).", "4/C11"),
+    "C12": E("exhaustive enumeration of dependency graphs (and clause-reference graphs) with every permutation of their statements; differential oracle",
+             "Every dependency graph within the bound, definitions interleaved in all orders, every cyclic digraph on <= 3 statements, corpus scripts permuted: results / structures / error codes equal to the written order's.", DIFF_NOTE, "4/C12"),
+    "C13": E("explicit-state check of an abstract table store driven by the real DAG schedule, every model trace replayed against run() through a connection proxy", 
+             "Every dependency graph within the bound (x persistence labelling x return_only_persistent), plus clause-reference graphs; the store's invariants are checked on every state and the real catalogue trace of run() must equal the model trace.",
+             BASE_NOTE + "Statement reads come from the generator; catalogue events are observed at the DuckDB connection.", "4/C13", "model_checking"),
+    "C14": E("exhaustive enumeration of a program list x {csv,parquet} x return_only_persistent; the same run without output_folder is the model",
+             "Files present, file contents read back (typed by the semantic structure) and scalar file against the in-memory result of the same call.", DIFF_NOTE, "4/C14"),
+    "C15": E("complete enumeration of the 32-point configuration lattice x program alphabet, plus plan-sensitive scripts on inputs large enough to parallelise; differential oracle",
+             "Same datapoints under every setting of VTL_THREADS x VTL_USE_IN_MEMORY_DB x VTL_MEMORY_LIMIT x VTL_TEMP_DIRECTORY.", DIFF_NOTE + "DuckDB's internal scheduling is repeated (2x), not enumerated.", "4/C15"),
+    "C16": E("fault injection at every event of the connection-proxy trace + explicit-state search over histories of failing runs",
+             "Every failure point (each load step, statement, fetch, write, release) of each subject script x fault alphabet x {in-memory, file-backed}, configuration failures, and all sequences of <= 3 failing runs followed by probes.",
+             BASE_NOTE + "Faults are injected at DuckDB connection calls; residue = temp dir entries, db file, open connection, fds, probe outcome.", "4/C16", "fault_enumeration"),
+    "C17": E("stateless schedule enumeration of real threads with iterative preemption bounding (hand-written cooperative scheduler)",
+             "All schedules with <= 1 (quick) / <= 2 (thorough) preemptions of every pair of an 11-call alphabet (triples in thorough) at the engine's shared-state switch points; each call's outcome must equal its outcome alone in a fresh process.",
+             BASE_NOTE + "Interleavings only at declared switch points (sys.settrace call events + parser_lock); parse-tree lifetime modelled by generation check.", "4/C17", "model_checking"),
+    "C18": E("exhaustive enumeration of cell-text pools x roles x every representable input form; differential oracle across forms",
+             "Each table materialised as CSV, DataFrame (str / string / native dtypes) and Parquet (text / native): all forms reject with a VTL input error or all accept with equal datapoints.", DIFF_NOTE, "4/C18"),
+    "C19": E("exhaustive enumeration of structural violations and of every documented input spelling x out-of-range instantiations against a docs-derived validity predicate + reference calendar",
+             "Reject iff invalid; accepted values come back as the value they denote.", BASE_NOTE + "Oracle = docs/data_types.rst tables parsed at run time + datetime/isocalendar.", "4/C19"),
+    "C20": E("the input space of C19/C18 with validate_dataset() and run() played against each other",
+             "validate_dataset raises iff run of a script reading the dataset rejects the same input (DataFrame and CSV).", DIFF_NOTE, "4/C20"),
+    "C21": E("exhaustive enumeration of every period x documented spelling x output format (packed), Python vs SQL, plus column-independence space",
+             "All spellings load to one value, rendering equals the documented representation, unsupported cells raise VTL errors, round trip, Python and SQL agree; a Time_Period column behaves as it does alone whatever its sibling columns hold.",
+             BASE_NOTE + "Oracle = docs tables parsed at run time + reference calendar.", "4/C21"),
+    "C22": E("enumeration of a lattice of API calls x argument shapes x forced outcomes with deep snapshots before / after",
+             "Every argument object (dicts, lists, DataFrames incl. backing arrays, files) is observably unchanged after the call, whether it succeeds or fails.", BASE_NOTE + "The URL fetch is replaced by a local stub.", "4/C22"),
+    "C23": E("exhaustive enumeration of token sequences / character strings / token mutations / nesting ladders / parse histories",
+             "Bounded-exhaustive input spaces through the recogniser on the repository's ATN and through create_ast, plus all parse histories of length <= 3 compared with a fresh process.",
+             BASE_NOTE + "Memory safety of the compiled extension is out of reach (DESIGN 7).", "4/C23"),
+    "C24": E("enumeration of every corpus script + literal / null-position / reserved-word / operator-type / comment spaces; structural AST comparison, idempotence, comment multiset, run equivalence",
+             "prettify output parses to a structurally identical AST, is idempotent, keeps comments, and runs to the same results.", DIFF_NOTE, "4/C24"),
+    "C25": E("enumeration of every corpus script + generated multi-statement scripts; scheme vs script differential",
+             "One transformation per assignment with name / persistence, run(scheme) == run(script), definitions re-parse to the originals.", DIFF_NOTE, "4/C25"),
+    "C26": E("exhaustive enumeration of all raise sites (ast) + executed instantiation under adversarial data + runtime monitor",
+             "Every construction site of a coded VTL exception is enumerated from the working tree and executed against the real catalogue, with argument values / output-dataset names containing braces; complete finite space.",
+             BASE_NOTE + "Codes computed at run time with no string constant reaching them are covered only by the monitor.", "4/C26", "exploration", False),
+    "C27": E("complete enumeration of pysdmx DataType x Role, structures of 1-3 (5) components, containers x entry points against the docs tables",
+             "One VTL component per SDMX component with the documented role / type / nullability; unmappable structures rejected with an input-validation error.", BASE_NOTE + "Oracle = docs/data_structures.rst parsed at run time.", "4/C27"),
+    "C28": E("exhaustive enumeration of rule shapes x operator contexts x all pairs/triples of viral values x every row permutation against a calibrated propagation model",
+             "Viral attribute of every result datapoint against the documented propagation model; independence of input row order; missing rule rejected.", REF_NOTE, "4/C28"),
+    "C29": E("enumeration of programs over case-variant names in every operator context; same program with distinct names as differential oracle (+ reference evaluator)",
+             "Case-variant components / datasets keep their own values and appear in the result when semantic analysis says so.", REF_NOTE, "4/C29"),
+    "C30": E("enumeration of the settings grid, each from a fresh process state (fork), all ordered pairs of boundary settings as histories, decimal-arithmetic oracle",
+             "Each setting rejected with the documented error or applied: rounding to scale, precision overflow rejected, exact decimal sums; an earlier setting never leaks.", BASE_NOTE + "Ranges parsed from docs/environment_variables.rst; arithmetic oracle = Python decimal.", "4/C30"),
+    "C31": E("the repository's parser ATN interpreted in SLL and LL by ANTLR's own prediction code, compared on exhaustively generated inputs",
+             "SLL vs LL verdict, first error and parse tree compared on every corpus script, one shortest sentence through every ATN transition, all their single-token mutations and all token sequences up to length k.",
+             BASE_NOTE + "Java runtime 4.11.1 stands for the C++ runtime 4.13.2.", "4/C31", "model_checking"),
+    "C32": E("enumeration of a failure table x shapes x output formats, error-mapper keyword injection, awkward statements, and every corpus call; raw-error monitor",
+             "run() returns or raises a VTLEngineException with a catalogued code for valid inputs.", BASE_NOTE + "Scripts that fail semantic analysis are outside the domain (counted only).", "4/C32"),
+    "C33": E("all row permutations (n<=4 quick / 6 thorough) and column orders of every input of a program alphabet in DataFrame and CSV form; differential oracle",
+             "Same set of result datapoints as the identity order.", DIFF_NOTE, "4/C33"),
 }
 
 NOT_APPLICABLE = {}
@@ -42,7 +99,10 @@ NOT_APPLICABLE = {}
 
 def build():
     checks = []
+    enabled = set(open(os.path.join(VERIF, "vtlmc", "enabled.txt")).read().split())
     for pid, (cat, tech, text, note, ref, thorough) in sorted(CHECKS.items()):
+        if pid not in enabled:
+            continue
         c = {
             "property_id": pid,
             "quick_cmd": "./check %s --tier quick" % pid,
@@ -59,7 +119,7 @@ def build():
     props = [json.loads(l)["id"] for l in open(os.path.join(VERIF, "properties.jsonl"))]
     na = []
     for pid in props:
-        if pid not in CHECKS:
+        if pid not in CHECKS or pid not in enabled:
             na.append({"property_id": pid, "reason": NOT_APPLICABLE.get(pid, "check not built yet (work in progress; see DESIGN.md section 4 for the planned bounded exploration)")})
     m = {
         "version": 1,
@@ -73,7 +133,7 @@ def build():
         },
         "engines": [{
             "name": "vtlmc", "path": "/verif/vtlmc",
-            "serves_properties": sorted(CHECKS),
+            "serves_properties": sorted(p for p in CHECKS if p in enabled),
             "kind_free_text": "hand-written bounded-exhaustive explorers for Python (program x input enumeration, explicit-state search over API-call histories, schedule enumeration with a preemption bound, fault-point enumeration) driving the real engine behind a parser stand-in",
         }],
         "checks": checks,
